@@ -86,6 +86,9 @@ func c06Paths() []string {
 			"$[?(@.a == 'x' || !@.b)]", "$.c[?(@.a == 1)].b", "$..[?(@.a)]", "$..[?(@.a == 1)]", "$.list[?(@.v == 1)].id", "$.list[?(@.v == $.x)]", "$.list[?(@.v == '1')]", "$.list[?(@.v)]", "$.list[?(!@.v)].id",
 			"$.a.f1()", "$.*.f1()", "$.a.g1()", "$.*.g2()", "$[?(@.a.f2() == 2)]", "$[?(@.*.g1() > 1)]", "$.c[*].a.f2().f1()", "$..a.g1()", "$.b.c[?(@ > 1)]", "$.b.c[?(@ == 2 || @ == 3)]",
 			"$[*,0]", "$[1,*]", "$[*,*]", "$[*,0].a", "$[0,*,-1].b", "$[?(@.a > 100)].b", "$[-3:].a", "$[::-20].a", "$[?(@.b == $[3].b)].a", "$.list[?(@.v == $.x)].id", "$.list[?(@.v != $.x)].id", "$..[?(@.v == $.x)]", "$[?($.a == 3)]", "$[?($.d == 'y')]",
+			// logical operators one side of which is decided for the whole container at once
+			"$[?(@.a && $.d)]", "$[?(@.a == 1 && $.a == 3)]", "$[?($.x == 1 && @.v)]", "$.list[?(@.v == 1 && $.x == 1)]", "$.list[?(@.v == 1 && $.x == 2)]", "$.list[?(@.v || $.y == 'a')]", "$.list[?($.y == 'b' || @.v == 2)]",
+			"$[?(@.b && 1 == 2)]", "$[?(1 == 1 && @.a)]", "$[?(@.a || 1 == 2)]", "$[?(@.a == 1 && $.zz)]", "$[?(!$.zz && @.b)]", "$.c[?(@.a && $.d == 'x')].b", "$.c[?(@.b && $.d == 'y')].a",
 			"$[?(@ == null)]", "$[?(@ == true)]", "$[?(@ == 's')]", "$[?(@ =~ /^s$/)]", "$[?(@[0] == 1)]", "$[?(@.b.a)]", "$[4][2][0]", "$[4][0:2]", "$..[0]", "$..['a','c']", "$..[*]",
 		} {
 			add(s)
@@ -320,11 +323,34 @@ func checkC06(c *Case, st *Stats) string {
 			defer wg.Done()
 			<-start
 			seen := map[[3]int]string{}
+			// the caller owns what it was given: it appends to earlier results while later ones are
+			// alive (its own and those of the other goroutines)
+			type heldResult struct {
+				res  []interface{}
+				n    int
+				full string
+			}
+			var held []heldResult
 			for i, op := range programs[g] {
 				got, err := run(op)
 				sum := summarize(got, err)
 				full := c06Outcome(got, err)
 				k := key(op)
+				if err == nil && len(got) > 0 {
+					if len(held) > 0 {
+						h := &held[i%len(held)]
+						h.res = append(h.res, "APPENDED-BY-CALLER")
+					}
+					held = append(held, heldResult{got, len(got), full})
+					if len(held) > 4 {
+						held = held[1:]
+					}
+					for _, h := range held {
+						if now := c06Outcome(h.res[:h.n], nil); now != h.full && mismatches[g] == "" {
+							mismatches[g] = fmt.Sprintf("goroutine %d operation %d: a result returned earlier (%s) changed to %s after callers appended to other results", g, i, h.full, now)
+						}
+					}
+				}
 				if err == nil && mismatches[g] == "" {
 					// the Config of THIS call decides whether the results are Accessors
 					wantAcc := (op.kind != 1 && c06Accessor(op.cfg)) || (op.kind == 1 && c06Accessor(shared[op.fn].cfg))
